@@ -6,6 +6,7 @@ import (
 	"encoding/binary"
 	"encoding/hex"
 	"fmt"
+	"io"
 	"mime/multipart"
 	"net/http"
 	"net/http/httptest"
@@ -185,6 +186,52 @@ type Expect struct {
 	// representation of fakech); columns it cannot know (fingerprints, re-encoded payloads)
 	// are absent. They are compared in every block that holds the row.
 	Cols map[string]any
+}
+
+// Headers are the request headers the writer's middleware interprets
+// (controller.WithOverallContextMiddleware, getAsyncMode): each "" = absent.
+type Headers struct {
+	Async string `json:"async,omitempty"` // X-Async-Insert: "0" sync, "1" async, anything else = default
+	TTL   string `json:"ttl,omitempty"`   // X-Ttl-Days
+	Meta  string `json:"meta,omitempty"`  // X-Scope-Meta
+	DSN   string `json:"dsn,omitempty"`   // X-CH-DSN: selects the node's services by name, else any
+	Enc   string `json:"enc,omitempty"`   // Content-Encoding: "gzip" (the body is really gzipped) or an unsupported one (400)
+}
+
+// HeaderChoices are the values drawn for each header.
+var HeaderChoices = struct{ Async, TTL, Meta, DSN, Enc []string }{
+	Async: []string{"", "1", "0", "", "yes", "1", "", "2"},
+	TTL:   []string{"", "", "7", "0", "junk", "99999"},
+	Meta:  []string{"", "", `{"org":"o1"}`, "junk"},
+	DSN:   []string{"", "", NodeName, "n-clickhouse://other:9000/db", "junk"},
+	Enc:   []string{"", "", "", "gzip", "br"},
+}
+
+// ApplyHeaders sets the headers on a built request (and gzips its body for Enc "gzip").
+func ApplyHeaders(r *http.Request, h Headers) {
+	set := func(k, v string) {
+		if v != "" {
+			r.Header.Set(k, v)
+		}
+	}
+	set("X-Async-Insert", h.Async)
+	set("X-Ttl-Days", h.TTL)
+	set("X-Scope-Meta", h.Meta)
+	set("X-CH-DSN", h.DSN)
+	switch h.Enc {
+	case "":
+	case "gzip":
+		raw, _ := io.ReadAll(r.Body)
+		var gz bytes.Buffer
+		zw := gzip.NewWriter(&gz)
+		_, _ = zw.Write(raw)
+		_ = zw.Close()
+		r.Body = io.NopCloser(&gz)
+		r.ContentLength = int64(gz.Len())
+		r.Header.Set("Content-Encoding", "gzip")
+	default:
+		r.Header.Set("Content-Encoding", h.Enc)
+	}
 }
 
 // HTTPKinds lists the request builders.
